@@ -16,7 +16,7 @@ func runC06(r *R) {
 	bal := "(*" + kb + ".Balancer)."
 	r.Explain = "Structural necessary conditions of C06: (R1) Balancer.Run reaches CommitPulls/CommitTrash only after service discovery, mount discovery, both sanity checks and GetCurrentState each returned nil, and trash is not committed when pulls failed; ClearTrashLists sends empty lists; (R2) every error in GetCurrentState's goroutines reaches the errs channel and the function returns nil only when errs is empty after wg.Wait; replicas are added only from a successfully retrieved index; " +
 		"(R3) the index parser returns entries only when it saw the blank terminator line and the scanner had no error, and malformed lines are errors; (R4) KeepClient.GetIndex accepts only bodies that are \"\\n\" or end in \"\\n\\n\"; (R5) keepstore's index handler writes the terminator only when every volume's IndexTo returned nil; " +
-		"(R6) EachCollection returns nil only after the closing count check, and propagates every page/callback error; (R7) EachCollection leaves exact-timestamp mode only after an empty page or a timestamp change. Completeness of the four-mode paging cursor under arbitrary ties and concurrent modification is history-level and NOT decided (R6/R7 are its structural prerequisites)."
+		"(R6) EachCollection returns nil only after the closing count check, and propagates every page/callback error; (R7) EachCollection leaves exact-timestamp mode only after an empty page or a timestamp change; (R8) the paging state machine: the three filter forms (advance: modified_at >= last.ModifiedAt ∧ uuid != last.UUID with the cursor moved; enter exact mode: modified_at = cursor ∧ uuid > last.UUID only after a non-empty page that did not get past the cursor; leave it: modified_at > cursor only from exact mode), the loop ends only after an empty page outside exact mode, only repeats of the previous item are skipped and the last delivered item is remembered. That these steps, composed, deliver every collection under arbitrary ties and concurrent modification is a history-level argument and NOT decided (R6–R8 are its structural prerequisites)."
 	r.NotDec = []string{"completeness of the paging cursor over timestamp ties / concurrent modification", "index truncation at an arbitrary byte (covered only through the terminator requirement)"}
 	r.Assume = []string{"bufio.Scanner yields lines in order"}
 
